@@ -116,9 +116,25 @@ def build(case):
             return ("weight", n["wt"], mk(c))
         return ("pack", mk(c))
 
+    placed = [None] * len(nodes)
+
+    def decorate(w, deco):
+        """wrap w in the decorations listed (outermost first)"""
+        for d in reversed(deco or []):
+            if d == "attr":
+                w = urwid.AttrMap(w, None, "focus")
+            elif d == "pad":
+                w = urwid.Padding(w)
+            elif d == "dis":
+                w = urwid.WidgetDisable(w)
+            else:
+                raise ValueError("unknown decoration " + str(d))
+        return w
+
     def mk(i):
-        if objs[i] is not None:
-            return objs[i]
+        """the widget as its parent holds it (decorations included)"""
+        if placed[i] is not None:
+            return placed[i]
         n = nodes[i]
         k = n["k"]
         if k == "leaf":
@@ -139,26 +155,38 @@ def build(case):
         elif k == "ovl":
             w = urwid.Overlay(mk(n["top"]), mk(n["bot"]), "left", ("relative", 100), "top", ("relative", 50))
         elif k == "lbox":
-            wk = urwid.SimpleFocusListWalker([mk(c) for c in n["ch"]])
-            if n.get("f") is not None and n["ch"]:
-                wk.focus = n["f"]
-            w = urwid.ListBox(wk)
+            items = [mk(c) for c in n["ch"]]
+            if n.get("slw"):
+                # the default walker for a plain list body
+                if n.get("f") is not None and n["ch"]:
+                    wk = urwid.SimpleListWalker(items)
+                    wk.focus = n["f"]
+                    w = urwid.ListBox(wk)
+                else:
+                    w = urwid.ListBox(items)
+            else:
+                wk = urwid.SimpleFocusListWalker(items)
+                if n.get("f") is not None and n["ch"]:
+                    wk.focus = n["f"]
+                w = urwid.ListBox(wk)
         else:
             raise ValueError("unknown node kind " + str(k))
         objs[i] = w
         ctx.ids[id(w)] = i
-        return w
+        placed[i] = decorate(w, n.get("deco"))
+        return placed[i]
 
     for i in range(len(nodes)):
         mk(i)
     ctx.objs = objs
+    ctx.placed = placed
     ctx.root = objs[case["root"]]
     ctx.nodes = nodes
     return ctx
 
 
 def kind_of(ctx, w):
-    return ctx.nodes[ctx.ids[id(w)]]["k"]
+    return ctx.nodes[ctx.ids[id(w.base_widget)]]["k"]
 
 
 def child_at(ctx, w, pos):
@@ -183,11 +211,13 @@ def child_at(ctx, w, pos):
 
 
 def resolve(ctx, path):
+    """the (undecorated) widget at the end of a path of positions"""
     w = ctx.root
     for p in path:
         w = child_at(ctx, w, p)
         if w is None:
             return None
+        w = w.base_widget
     return w
 
 
@@ -199,6 +229,7 @@ def route_ok(ctx, route):
         w = child_at(ctx, w, p)
         if w is None:
             return False
+        w = w.base_widget
     return True
 
 
@@ -217,7 +248,7 @@ def item_for(ctx, w, cid):
     """(widget, options) tuple for inserting pool widget cid into container w."""
     k = kind_of(ctx, w)
     n = ctx.nodes[cid]
-    c = ctx.objs[cid]
+    c = ctx.placed[cid]
     if k == "pile":
         if n.get("box"):
             return (c, w.options("given", n["ht"]))
@@ -261,7 +292,7 @@ def apply_edit(ctx, w, e):
     elif t == "clear":
         l.clear()
     elif t == "remove":
-        c = ctx.objs[e[1]]
+        c = ctx.placed[e[1]]
         present = [x for x in l if (x if k == "lbox" else x[0]) is c]
         l.remove(present[0] if present else it(e[1]))
     elif t == "iadd":
@@ -390,6 +421,28 @@ def render_root(ctx, size):
     return canv, err, rl
 
 
+def focus_chain(ctx):
+    """Independent of get_focus_path: follow .focus from the root.  Returns (positions, id of the deepest focus widget)."""
+    w = ctx.root
+    out = []
+    for _ in range(64):
+        try:
+            p = w.focus_position
+        except IndexError:
+            break
+        except Exception:
+            return None, None
+        out.append(pos_from_py(p))
+        try:
+            f = w.focus
+        except Exception:
+            return None, None
+        if f is None:
+            return None, None
+        w = f.base_widget
+    return out, ctx.ids.get(id(w))
+
+
 def focus_path_obs(ctx):
     try:
         return [pos_from_py(p) for p in ctx.root.get_focus_path()]
@@ -413,6 +466,7 @@ def run_case(case):
         c["render_exc"] = err
         o["st"] = state_dump(ctx)
         o["fp"] = focus_path_obs(ctx)
+        c["fp_chain"], c["deep"] = focus_chain(ctx)
         c["facts"] = validity_facts(ctx)
         return canv
 
@@ -490,6 +544,7 @@ def run_case(case):
             fp = focus_path_obs(ctx)
             saved["path"] = None if (fp and fp[0] == "E") else list(ctx.root.get_focus_path())
             saved["edits"] = n_edits[0]
+            saved["deep"] = focus_chain(ctx)[1]
             o["op"] = ["ok"]
         elif t == "restore":
             if saved["path"] is None:
@@ -502,7 +557,8 @@ def run_case(case):
                     o["op"] = ["E", exc_name(e)]
                 now = focus_path_obs(ctx)
                 c["restore"] = {"shape_same": saved["edits"] == n_edits[0], "res": o["op"],
-                                "saved": [pos_from_py(p) for p in saved["path"]], "now": now}
+                                "saved": [pos_from_py(p) for p in saved["path"]], "now": now,
+                                "saved_deep": saved.get("deep"), "now_deep": focus_chain(ctx)[1]}
         elif t == "edit":
             w = resolve(ctx, op[1])
             if w is None or kind_of(ctx, w) not in ("pile", "cols", "grid", "lbox"):
@@ -525,7 +581,7 @@ def run_case(case):
                 n_edits[0] += 1
                 try:
                     if t == "setpart":
-                        w.contents[PART[op[2]]] = (None if op[3] is None else ctx.objs[op[3]], None)
+                        w.contents[PART[op[2]]] = (None if op[3] is None else ctx.placed[op[3]], None)
                     else:
                         del w.contents[PART[op[2]]]
                     o["op"] = ["ok"]
@@ -1221,6 +1277,13 @@ def oracle(case, res):
                     msgs.append(f"{tag}: set_focus_path(saved get_focus_path()) raised {rr['res'][1]} although no contents changed")
                 elif rr["now"] != rr["saved"]:
                     msgs.append(f"{tag}: set_focus_path(saved) gives focus path {rr['now']}, saved was {rr['saved']}")
+                elif rr.get("saved_deep") is not None and rr.get("now_deep") != rr["saved_deep"]:
+                    msgs.append(f"{tag}: set_focus_path(saved get_focus_path()) does not restore the focus: the deepest focus widget "
+                                f"is #{rr['now_deep']}, it was #{rr['saved_deep']} when the path was read")
+        # ---- the focus path IS the chain of focus positions down to the leaf ----
+        if c.get("fp_chain") is not None and o["fp"] and o["fp"][0] != "E" or (c.get("fp_chain") is not None and o["fp"] == []):
+            if o["fp"] != c["fp_chain"]:
+                msgs.append(f"{tag}: get_focus_path() is {o['fp']} but following .focus from the root gives {c['fp_chain']}")
         # ---- clause: focus validity in every container; a bad state is reported when it arises ----
         facts = c.get("facts", [])
         prev_facts = {f["id"]: f for f in facts}
@@ -1266,7 +1329,7 @@ def enc_node(n):
             l += enc_key(key)
     elif k in ("pile", "cols", "grid", "lbox"):
         l += oz(n.get("f"))
-        l += [n.get("dv", 0) if k == "cols" else n.get("hs", 0), n.get("cw", 0), n.get("vs", 0)]
+        l += [n.get("dv", 0) if k == "cols" else n.get("hs", 0), (1 if n.get("slw") else 0) if k == "lbox" else n.get("cw", 0), n.get("vs", 0)]
         l += [len(n["ch"])] + list(n["ch"])
     elif k == "frame":
         l += [n["body"]] + oz(n.get("hd")) + oz(n.get("ft")) + [n.get("part", 100)]
